@@ -92,4 +92,18 @@ C19-c/patch.diff C19 DestroyLeftovers
 C20-c/patch.diff C20 DMapCompaction
 reverts/R-51545c9.diff C10 Idle
 reverts/R-85a6273.diff C03 Balancer
+reverts/R-21d79c4.diff C20 MixedSizes
+reverts/R-c74f5cb.diff C20 ClosedFragment
+reverts/R-5cee263.diff C05 NewGate
+reverts/R-af02097.diff C09 StaleCopies
+C01-d/patch.diff C11 LargeTable
+C02-d/patch.diff C02 WriteQuorum
+C03-d/patch.diff C03 BackupMove
+C06-d/patch.diff C06 Read
+C08-d/patch.diff C08 ClusterLock
+C09-d/patch.diff C09 StaleCopies
+C12-d/patch.diff C12 PausedScan
+C14-d/patch.diff C14
+C16-d/patch.diff C14
+C20-d/patch.diff C20 MixedSizes
 LIST
